@@ -608,7 +608,8 @@ func (k *Key) UnmarshalCBOR(data []byte) error {
 	if err != nil {
 		return fmt.Errorf("key_ops: %w", err)
 	}
-	if len(key_ops) > 0 {
+	if key_ops != nil {
+		// an empty key_ops array permits no operation; it is not the same as an absent one
 		k.Ops = make([]KeyOp, len(key_ops))
 		for i, op := range key_ops {
 			switch op := op.(type) {
